@@ -88,6 +88,15 @@ Fixpoint stir_run (s : stir) (ls : list slabel) : option stir :=
 Fixpoint stir_iter (k : nat) (secs : Z) : Z :=
   match k with O => secs | S k' => stir_iter k' (stir_next secs) end.
 
+(* k successive runs of the callback with stagger 0: (interval variable after the run, delay armed) — the shape of
+   GenTimer.stir_seq_first_start / stir_seq_seeded, which the probe measures far past the point where the maximum
+   is reached (so that any state kept behind the interval would show) *)
+Fixpoint stir_seq (k : nat) (secs : Z) : list (Z * Z) :=
+  match k with
+  | O => []
+  | S k' => let (s', d) := stir_cb secs 0 in (s', d) :: stir_seq k' s'
+  end.
+
 (* the model against the measured tables *)
 Definition init_sample_ok (p : Z * Z) : bool := stir_first_delay SRepo (fst p) 0 =? snd p.
 Definition run_sample_ok (p : Z * Z) : bool := snd (stir_cb (fst p) 0) =? snd p.
